@@ -18,7 +18,7 @@ Fixpoint assoc {V} (k : str) (l : list (str * V)) : option V :=
   | (k', v) :: r => if str_eqb k k' then Some v else assoc k r
   end.
 Definition oracle_of (t : tables) : oracle :=
-  {| o_loads := fun s => match assoc s (t_loads t) with Some v => v | None => POther end;
+  {| o_loads := fun s => match assoc s (t_loads t) with Some v => v | None => POther 2 end;
      o_int := fun s => match assoc s (t_int t) with Some z => z | None => None end;
      o_jsonbody := fun s => match assoc s (t_json t) with Some r => r | None => None end;
      o_textbody := fun s => match assoc s (t_text t) with Some r => r | None => None end;
@@ -48,7 +48,7 @@ Fixpoint pv_sx (v : pv) : sx :=
                                | [] => []
                                | (k, x) :: r => L [key_sx k; pv_sx x] :: go r
                                end) l)]
-  | POther => L [I 8%Z]
+  | POther e => L [I 8%Z; sxN e]
   end.
 Definition ostr_sx (o : option str) : sx := match o with None => L [] | Some s => L [B s] end.
 Definition tbl_sx (m : tbl) : sx := L (map (fun e => L [B (fst (fst e)); B (snd (fst e)); B (snd e)]) m).
@@ -103,7 +103,7 @@ Fixpoint dec_pv (x : sx) : option pv :=
                              end
                          | _ => None
                          end) l)
-  | L [I 8%Z] => Some POther
+  | L [I 8%Z; e] => option_map POther (asN e)
   | _ => None
   end.
 Definition dec_ostr (x : sx) : option (option str) :=
